@@ -116,13 +116,16 @@ def do_run(ids, tier, jobs=1, results=None):
                 p = sh([str(VERIF / "check"), prop, "--tier", tier], env=env, cwd=VERIF)
                 sig = [l.strip() for l in p.stdout.splitlines() if l.strip().startswith("signature:")]
                 st = "caught" if p.returncode == 1 else "MACHINERY" if p.returncode == 2 else "MISSED"
+                if meta.get("not_a_violation"):
+                    # a change that does not break the property as stated: the check must stay silent
+                    st = "silent-as-intended" if p.returncode == 0 else "ALARM-ON-NON-VIOLATION"
                 print(f"SEED {sid} {prop} exit={p.returncode} {st} {sig[0] if sig else ''}", flush=True)
                 if results is not None:
                     results.append((sid, prop, p.returncode, st, sig[0][len("signature: "):] if sig else "",
                                     meta.get("summary", "")[:160], meta.get("needs", "")[:160]))
                 if p.returncode == 2:
                     print("\n".join(p.stdout.splitlines()[-12:]))
-                rc_all |= p.returncode != 1
+                rc_all |= (p.returncode != 0) if meta.get("not_a_violation") else (p.returncode != 1)
         finally:
             shutil.rmtree(root, ignore_errors=True)
     return rc_all
